@@ -42,9 +42,6 @@ def specChunked : Nat → Bytes → Option (List Bytes × Bytes)
         else if (rest.drop n).take 2 != [13, 10] then none
         else (specChunked fuel (rest.drop (n + 2))).map fun (cs, r) => (rest.take n :: cs, r)
 
-def metaVal (c : TCase) (key : String) : Option (List String) :=
-  (c.metas.find? (·.startsWith s!"meta {key} ")).map fun m => (m.splitOn " ").drop 2
-
 structure C07St where
   off : Nat := 0            -- coding bytes consumed so far
   outOff : Nat := 0         -- payload bytes delivered so far
